@@ -706,9 +706,6 @@ func (r *R) Gen(ctx sdk.Context, g *hx.Rng) string {
 		// a burst of consecutive blocks (one observation per block, so the monitors see every block)
 		r.G.pending = int(g.Range(1, 7))
 		r.G.burstDt = g.Range(1, 60)
-		if g.Chance(1, 40) {
-			return "service skip " + hx.KV("n", g.Range(2, 5), "dt", g.Range(1, 60))
-		}
 		return "service next " + hx.KV("dt", r.G.burstDt)
 	}
 }
